@@ -9,7 +9,7 @@ from .common import Harness, instrumented, zbool, mkstate
 PROPERTY = 'C06'
 BOUNDS = {
     'quick': 'all ASCII 1..127 strings: (|got|<=4,|want|<=9) and (|got|<=6,|want|<=8); ELLIPSIS flag symbolic',
-    'thorough': 'all ASCII 1..127 strings: (|got|<=8,|want|<=12), (|got|<=4,|want|<=16), (|got|<=10,|want|<=10), (|got|<=1,|want|<=27: nine ellipses); ELLIPSIS flag symbolic',
+    'thorough': 'all ASCII 1..127 strings: (|got|<=8,|want|<=12), (|got|<=4,|want|<=16), (|got|<=10,|want|<=10); ELLIPSIS flag symbolic',
 }
 OUTSIDE = 'non-ASCII text; strings longer than the bounds; normalisation before matching is C05'
 ASSUMPTIONS = ['characters are ASCII 1..127 (NUL is the padding character of the bounded string model)',
@@ -22,7 +22,7 @@ def jobs(tier):
     if tier == 'quick':
         caps = [(4, 9), (6, 8)]
     else:
-        caps = [(8, 12), (4, 16), (10, 10), (1, 27)]      # the last one reaches a want with nine ellipses
+        caps = [(8, 12), (4, 16), (10, 10)]
     out = []
     for g, w in caps:
         out.append({'ob': 'match_vs_wildcard_dp', 'gcap': g, 'wcap': w,
